@@ -2809,7 +2809,10 @@ class Env(cabc.MutableMapping):
                 self._set_item(k, v, thread_local=True)
         # kwargs could also have been sent in
         for k, v in kwargs.items():
-            old[k] = self._capture_for_swap(k, local)
+            if k not in old:
+                # also given positionally: what was captured there is the
+                # value to restore, not the one the positional dict just set
+                old[k] = self._capture_for_swap(k, local)
             self._set_item(k, v, thread_local=True)
 
         if overlay is not None:
